@@ -9,7 +9,7 @@ PID = 'C08'
 LEVEL = 'exploration'
 VARIANTS = {'quick': ['asan', 'plain'], 'thorough': ['asan', 'plain', 'asan-tdbg']}
 RULE = ('mpz_powm/powm_ui over moduli odd, even with 2-adic valuation 1,63,64,65,128 and whole zero low limbs, 2^k, +-1, '
-        'sizes 1..12 limbs and around REDC_1_TO_REDC_2/REDC_2_TO_REDC_N/POWM thresholds; bases negative, 0, 1, m-1, >m, multiples of m; '
+        'sizes 1..12 limbs and around REDC_1_TO_REDC_2/REDC_2_TO_REDC_N/POWM thresholds, odd parts and power-of-two parts around BINV_NEWTON_THRESHOLD (299..303, 307, 451, 602, 606 limbs); bases negative, 0, 1, m-1, >m, multiples of m; '
         'exponents 0,1,2, all-ones of every length 1..70 and at each sliding-window breakpoint (7,25,81,241,673,1793,4609 bits)+-1, sparse '
         'and multi-limb exponents, negative exponents with invertible base; exponent 1/2 with |b| within a few limbs of m or of B^(n-1) and residues 1..n limbs; thin-band residues (b=+-1,+-2, small e); mpz_pow_ui / '
         'ui_pow_ui with 0^0, bases 0,+-1,+-2,2^k,B-1, multi-limb; judged by Python pow. distinct = (function, modulus class, size '
@@ -70,6 +70,14 @@ def specs(rng, tier, wid, nw, env):
                     if mn > 40 and ec in ('winfull', 'limbs', 'win') and q and bc != 'rand': continue
                     k += 1
                     if k % nw == wid: yield ('powm', mn, mc, ec, bc, rng.randint(0, 1), rng.getrandbits(48))
+    # mpn_binvert's Newton lifting (odd part or power-of-two part of the modulus >= BINV_NEWTON_THRESHOLD limbs): every size whose halving
+    # chain contains odd lengths (A76: 301, 303, 451, 602 wrong, 300, 302, 600 right)
+    bt = th.get('BINV_NEWTON_THRESHOLD', 300)
+    if bt and bt < 1200:
+        for n_ in sorted({bt - 1, bt, bt + 1, bt + 2, bt + 3, bt + 7, (3 * bt) // 2 + 1, 2 * bt + 2, 2 * bt + 6} | (set() if q else set(range(bt + 4, bt + 40)) | {4 * bt + 4, 4 * bt + 12})):
+            for form in ('odd', 'odd', 'evenpart'):
+                k += 1
+                if k % nw == wid: yield ('binv', n_, form, rng.getrandbits(48))
     # exponent 1 (and 2): the b^1 shortcut; |b| just below / above B^(n-1), m - |b| several limbs shorter than m (F16)
     for mn in range(1, 10):
         for j in range(24 if q else 200):
@@ -85,6 +93,16 @@ def specs(rng, tier, wid, nw, env):
 
 def build(spec, env):
     kind = spec[0]; r = random.Random(spec[-1])
+    if kind == 'binv':
+        _, n_, form, _s = spec
+        if form == 'odd': m = gen.nat(r, n_, r.choice(['rand', 'special'])) | 1
+        else: m = (gen.nat(r, 3) | 1) << (64 * n_ + r.choice([0, 0, 1, 63]))
+        b = gen.signed(r, r.choice([1, 3, n_])); e = r.choice([2, 3, 65537, r.getrandbits(70) | 1])
+        cmds = ['z Z1 %s' % hx(b), 'z Z2 %s' % hx(e), 'z Z3 %s' % hx(m), 'c mpz_powm Z0 Z1 Z2 Z3']
+        def check(rep, b=b, e=e, m=m, n_=n_, form=form):
+            v, _ = split_reply(rep[3])
+            if I(v[0]) != pow(b, e, m): return [('mpz_powm:wrong:binvert', '%s part of %d limbs, e=%s' % (form, n_, hx(e)))]
+        return Case(cmds, check, 1, ('binv', n_, form))
     if kind == 'e1':
         _, mn, j, _s = spec
         top = 1 << (64 * (mn - 1))
